@@ -225,7 +225,12 @@ class IncrementalExecutor(Executor[DeliveryGroupMap]):
         awaitables: list[Any] = []
         is_awaitable = self.is_awaitable
         for task in self.tasks:
-            abort_result = task.computation.abort(reason)
+            computation = task.computation
+            pending_future = computation.pending_future
+            abort_result = computation.abort(reason)
+            if pending_future is not None:
+                # the cancelled computation still needs to unwind
+                awaitables.append(pending_future)
             if is_awaitable(abort_result):
                 awaitables.append(abort_result)
         for stream in self.streams:
